@@ -87,6 +87,7 @@ func (x *Engine) intrinsic(fr *Frame, st *State, name string, callee *ssa.Functi
 			x.bumpEpoch(st)
 		}
 		x.atomicEvent(fr, st, "store", a, old, args[1].T, pos)
+		x.markWritten(st, a, "true")
 		if x.onWrite != nil {
 			x.onWrite(st, a, x.name("pv", "Int", old), args[1].T, "true", pos)
 		}
@@ -102,6 +103,7 @@ func (x *Engine) intrinsic(fr *Frame, st *State, name string, callee *ssa.Functi
 			x.bumpEpoch(st)
 		}
 		x.atomicEvent(fr, st, "add", a, old, nv, pos)
+		x.markWritten(st, a, "true")
 		if x.onWrite != nil {
 			x.onWrite(st, a, old, nv, "true", pos)
 		}
@@ -117,6 +119,7 @@ func (x *Engine) intrinsic(fr *Frame, st *State, name string, callee *ssa.Functi
 			x.bumpEpoch(st)
 		}
 		x.atomicEvent(fr, st, "cas:"+ok, a, cur, args[2].T, pos)
+		x.markWritten(st, a, ok)
 		if x.onWrite != nil {
 			x.onWrite(st, a, cur, args[2].T, ok, pos)
 		}
@@ -126,6 +129,7 @@ func (x *Engine) intrinsic(fr *Frame, st *State, name string, callee *ssa.Functi
 		x.interfere(fr, st, a)
 		old := x.name("ao", x.sortOf(rt()), x.loadAddr(st, a))
 		x.storeAddr(st, a, args[1].T)
+		x.markWritten(st, a, "true")
 		x.bumpEpoch(st)
 		return Val{T: old, Typ: rt()}, true
 	case strings.HasPrefix(name, "(*sync.Mutex)."), strings.HasPrefix(name, "(*sync.RWMutex)."):
